@@ -170,6 +170,9 @@ let query_entity (s : mesh) (walks : string list) =
          (* backward from end *)
          let rec back c i acc = if i = 0 then List.rev acc else let c' = get (ent_prev k s c) in back c' (i - 1) (eobs c' :: acc) in
          pr "I %s rev : %s\n" kn (String.concat " " (back e (n + 2) []));
+         (let p2 = get (ent_next k s (get (ent_next k s b))) in
+          let t = if int_of_z p2.e_idx > n then "s" else eobs (get (ent_prev k s p2)) in
+          pr "I %s arith : %s %s %s\n" kn (eobs p2) t (eobs (get (ent_prev k s b))));
          List.iter (fun w ->
              let c = ref b in
              let out = ref [] in
@@ -200,16 +203,19 @@ let query_circs (s : mesh) (m : int) (walks : string list) =
                let rec rng c acc fuel =
                  if c_eqb c e || fuel = 0 then List.rev acc else rng (get (circ_next k l (z_of_int 1) c)) (cur_int c.c_cur :: acc) (fuel - 1) in
                pr "C %s %d range : %s\n" nm x (String.concat " " (List.map string_of_int (rng b [] (List.length l + 2))));
+               if b.c_valid then begin
+                 (* the copying forms: it + 2, (it + 2) - 1, it - 1 *)
+                 let mz = z_of_int m in
+                 let p2 = get (circ_next k l mz (get (circ_next k l mz b))) in
+                 pr "C %s %d arith m=%d : %s %s %s\n" nm x m (cobs p2) (cobs (get (circ_prev k l p2))) (cobs (get (circ_prev k l b)))
+               end;
                if b.c_valid then
                  List.iter (fun w ->
-                     let c = ref b and stop = ref false in
+                     let c = ref b in
                      let out = ref [] in
                      String.iter (fun ch ->
-                         if not !stop then begin
-                           (if ch = '+' then c := get (circ_next k l (z_of_int m) !c) else c := get (circ_prev k l !c));
-                           out := cobs !c :: !out;
-                           if k = CF && int_of_z !c.c_lap < 0 then stop := true
-                         end) w;
+                         (if ch = '+' then c := get (circ_next k l (z_of_int m) !c) else c := get (circ_prev k l !c));
+                         out := cobs !c :: !out) w;
                      pr "C %s %d walk m=%d %s : %s\n" nm x m w (String.concat " " (List.rev !out))) walks
              with UB -> pr "C %s %d UB\n" nm x)
       done) circs
